@@ -19,8 +19,15 @@ integer element types (short, int, int64) by theorem, not only float/double.
 
 A box denotes the point set `Mem p b := ∀ axis, b.min ≤ p ≤ b.max` (Spec/BoxSpec.lean).
 
-`transform` / `affineTransform` (four overloads) are modelled by hand in `Model/BoxTransform.lean`
-(H-route; tied to the real code by `harness/corr/c13_corr.cpp` vs `Driver/BoxTransform.lean`).
+`transform` / `affineTransform` (four overloads) are modelled by hand in `Model/BoxTransform.lean`; the theorems about
+them are below.  That model is PROVED EQUAL to the four overloads as regenerated from the header in
+`Props/C13Transform.lean` (every box, every matrix), and additionally tied to the real code by
+`harness/corr/c13_corr.cpp` vs `Driver/BoxTransform.lean`.
+
+Hypotheses on the type bounds: the member theorems use `∀ x, tlowest ≤ x ∧ x ≤ tmax` (a bounded linear order: the
+finite values of an element type; instance `Fin 4` below).  Over an ordered FIELD that hypothesis is unsatisfiable, so
+the transform theorems use the range-relative `V3.InRange` on the eight corner images instead (instances over ℚ at the
+end of the file).
 
 ## Defects found by this property and repaired in /repo (commits 955f533, 6dca912)
 * `intersects(box)` answered `true` for an EMPTY box against any box covering its corners (e.g. `makeEmpty()` vs
@@ -1219,6 +1226,108 @@ theorem Box3_generic_majorAxis (b : Box3 α) (w : α) :
 
 end lifts_group
 
+/-! ### the remaining queries: the generic template on extra axes = the specialisation (audit W8) -/
+
+/-- embedding with a possibly NON-degenerate extra axis `[w, w']` -/
+def Box3.lift4' (b : Box3 α) (w w' : α) : Box4 α := ⟨V3.lift4 b.min w, V3.lift4 b.max w'⟩
+def Box2.lift4' (b : Box2 α) (z z' w w' : α) : Box4 α := ⟨V2.lift4 b.min z w, V2.lift4 b.max z' w'⟩
+
+section lifts_order
+variable [LinearOrder α]
+
+theorem Box3_generic_hasVolume (b : Box3 α) (w w' : α) (h : w < w') :
+    Gen.Box4.hasVolume (Box3.lift4' b w w') = Gen.Box3.hasVolume b := by
+  rw [Bool.eq_iff_iff, Box4_hasVolume_iff, Box3_hasVolume_iff]
+  simp only [Box3.lift4', V3.lift4, h, and_true]
+
+/-- ... and a degenerate extra axis never has volume (so the single-`w` embedding cannot be used for `hasVolume`) -/
+theorem Box3_generic_hasVolume_degenerate (b : Box3 α) (w : α) : Gen.Box4.hasVolume (Box3.lift4 b w) = false := by
+  rw [← Bool.not_eq_true, Box4_hasVolume_iff]
+  simp only [Box3.lift4, V3.lift4, lt_self_iff_false, and_false, not_false_eq_true]
+
+theorem Box2_generic_hasVolume (b : Box2 α) (z z' w w' : α) (hz : z < z') (hw : w < w') :
+    Gen.Box4.hasVolume (Box2.lift4' b z z' w w') = Gen.Box2.hasVolume b := by
+  rw [Bool.eq_iff_iff, Box4_hasVolume_iff, Box2_hasVolume_iff]
+  simp only [Box2.lift4', V2.lift4, hz, hw, and_true]
+
+theorem Box3_generic_isInfinite (tmax tlowest : α) (b : Box3 α) :
+    Gen.Box4.isInfinite tmax tlowest (Box3.lift4' b tlowest tmax) = Gen.Box3.isInfinite tmax tlowest b := by
+  rw [Bool.eq_iff_iff, Box4_isInfinite_iff, Box3_isInfinite_iff]
+  obtain ⟨⟨a1, a2, a3⟩, ⟨a4, a5, a6⟩⟩ := b
+  simp only [Box3.lift4', V3.lift4, Gen.Box4.makeInfinite, Gen.Box3.makeInfinite, Box4.mk.injEq, V4.mk.injEq, Box3.mk.injEq,
+    V3.mk.injEq, and_true]
+
+theorem Box2_generic_isInfinite (tmax tlowest : α) (b : Box2 α) :
+    Gen.Box4.isInfinite tmax tlowest (Box2.lift4' b tlowest tmax tlowest tmax) = Gen.Box2.isInfinite tmax tlowest b := by
+  rw [Bool.eq_iff_iff, Box4_isInfinite_iff, Box2_isInfinite_iff]
+  obtain ⟨⟨a1, a2⟩, ⟨a4, a5⟩⟩ := b
+  simp only [Box2.lift4', V2.lift4, Gen.Box4.makeInfinite, Gen.Box2.makeInfinite, Box4.mk.injEq, V4.mk.injEq, Box2.mk.injEq,
+    V2.mk.injEq, and_true]
+
+theorem Box3_generic_eq (a b : Box3 α) (w w' : α) :
+    Gen.Box4.eq (Box3.lift4' a w w') (Box3.lift4' b w w') = Gen.Box3.eq a b := by
+  rw [Bool.eq_iff_iff, Box4_eq_iff, Box3_eq_iff]
+  obtain ⟨⟨a1, a2, a3⟩, ⟨a4, a5, a6⟩⟩ := a
+  obtain ⟨⟨b1, b2, b3⟩, ⟨b4, b5, b6⟩⟩ := b
+  simp only [Box3.lift4', V3.lift4, Box4.mk.injEq, V4.mk.injEq, Box3.mk.injEq, V3.mk.injEq, and_true]
+
+theorem Box3_generic_ne (a b : Box3 α) (w w' : α) :
+    Gen.Box4.ne (Box3.lift4' a w w') (Box3.lift4' b w w') = Gen.Box3.ne a b := by
+  rw [Bool.eq_iff_iff, Box4_ne_iff, Box3_ne_iff, not_iff_not, ← Box4_eq_iff, ← Box3_eq_iff, Box3_generic_eq]
+
+theorem Box2_generic_eq (a b : Box2 α) (z z' w w' : α) :
+    Gen.Box4.eq (Box2.lift4' a z z' w w') (Box2.lift4' b z z' w w') = Gen.Box2.eq a b := by
+  rw [Bool.eq_iff_iff, Box4_eq_iff, Box2_eq_iff]
+  obtain ⟨⟨a1, a2⟩, ⟨a4, a5⟩⟩ := a
+  obtain ⟨⟨b1, b2⟩, ⟨b4, b5⟩⟩ := b
+  simp only [Box2.lift4', V2.lift4, Box4.mk.injEq, V4.mk.injEq, Box2.mk.injEq, V2.mk.injEq, and_true]
+
+theorem Box2_generic_ne (a b : Box2 α) (z z' w w' : α) :
+    Gen.Box4.ne (Box2.lift4' a z z' w w') (Box2.lift4' b z z' w w') = Gen.Box2.ne a b := by
+  rw [Bool.eq_iff_iff, Box4_ne_iff, Box2_ne_iff, not_iff_not, ← Box4_eq_iff, ← Box2_eq_iff, Box2_generic_eq]
+
+/-- constructors: the generic template writes the same bounds on every axis -/
+theorem Box3_generic_makeEmpty (tmax tlowest : α) (b : Box3 α) (w w' : α) :
+    Gen.Box4.makeEmpty tmax tlowest (Box3.lift4' b w w') = Box3.lift4' (Gen.Box3.makeEmpty tmax tlowest b) tmax tlowest := rfl
+theorem Box3_generic_makeInfinite (tmax tlowest : α) (b : Box3 α) (w w' : α) :
+    Gen.Box4.makeInfinite tmax tlowest (Box3.lift4' b w w') = Box3.lift4' (Gen.Box3.makeInfinite tmax tlowest b) tlowest tmax := rfl
+theorem Box3_generic_default (tmax tlowest : α) :
+    Gen.Box4.default tmax tlowest = Box3.lift4' (Gen.Box3.default tmax tlowest) tmax tlowest := rfl
+theorem Box2_generic_makeEmpty (tmax tlowest : α) (b : Box2 α) (z z' w w' : α) :
+    Gen.Box4.makeEmpty tmax tlowest (Box2.lift4' b z z' w w') = Box2.lift4' (Gen.Box2.makeEmpty tmax tlowest b) tmax tlowest tmax tlowest := rfl
+theorem Box2_generic_makeInfinite (tmax tlowest : α) (b : Box2 α) (z z' w w' : α) :
+    Gen.Box4.makeInfinite tmax tlowest (Box2.lift4' b z z' w w') = Box2.lift4' (Gen.Box2.makeInfinite tmax tlowest b) tlowest tmax tlowest tmax := rfl
+theorem Box2_generic_default (tmax tlowest : α) :
+    Gen.Box4.default tmax tlowest = Box2.lift4' (Gen.Box2.default tmax tlowest) tmax tlowest tmax tlowest := rfl
+
+end lifts_order
+
+section lifts_center
+variable [Add α] [Div α] [OfNat α 2]
+/-- `center()`: the same expression `(max + min) / 2` on every axis (any scalar type, no algebra used) -/
+theorem Box3_generic_center (b : Box3 α) (w w' : α) :
+    Gen.Box4.center (Box3.lift4' b w w') = V3.lift4 (Gen.Box3.center b) ((w' + w) / 2) := rfl
+theorem Box2_generic_center (b : Box2 α) (z z' w w' : α) :
+    Gen.Box4.center (Box2.lift4' b z z' w w') = V2.lift4 (Gen.Box2.center b) ((z' + z) / 2) ((w' + w) / 2) := rfl
+end lifts_center
+
+section lifts_group2
+variable [AddCommGroup α] [LinearOrder α] [IsOrderedAddMonoid α]
+
+theorem Box2_generic_size (b : Box2 α) (z w : α) :
+    Gen.Box4.size (Box2.lift4 b z w) = V2.lift4 (Gen.Box2.size b) 0 0 := by
+  simp only [Gen.Box4.size, Gen.Box2.size, Box2.lift4, V2.lift4, lt_self_iff_false, sub_self, if_false]
+  split_ifs <;> rfl
+
+theorem Box2_generic_majorAxis (b : Box2 α) (z w : α) :
+    Gen.Box4.majorAxis (Box2.lift4 b z w) = Gen.Box2.majorAxis b := by
+  simp only [Gen.Box4.majorAxis, Gen.Box2.majorAxis, Box2.lift4, V2.lift4, lt_self_iff_false, sub_self, if_false,
+    sub_neg]
+  split_ifs <;> first | rfl | (exfalso; bord)
+
+end lifts_group2
+
+
 /-! ## clip / closestPointInBox / closestPointOnBox -/
 
 set_option maxHeartbeats 1600000 in
@@ -1361,7 +1470,47 @@ example : ¬ Box3.Inverted (⟨⟨0, 0, 0⟩, ⟨2, 2, 2⟩⟩ : Box3 Int) ∧ B
   simp only [Box3.Inverted, Box3.OnSurface, Box3.Mem]; decide
 
 
-/-! ## transform / affineTransform (H-route model `Model/BoxTransform.lean`, all four overloads)
+/-! ### `center()` at the INTEGER element types (audit W6): truncating division, no overflow (unbounded `Int`) -/
+
+/-- C++ `/` on signed integers truncates toward zero: `Int.tdiv` -/
+@[reducible] def cxxIntDiv : Div Int := ⟨Int.tdiv⟩
+
+theorem tdiv_two_between (lo hi : Int) (h : lo ≤ hi) : lo ≤ (hi + lo).tdiv 2 ∧ (hi + lo).tdiv 2 ≤ hi := by
+  rcases le_total 0 (hi + lo) with hs | hs
+  · rw [Int.tdiv_eq_ediv_of_nonneg hs]; omega
+  · have e : (hi + lo).tdiv 2 = -((-(hi + lo)).tdiv 2) := by rw [Int.neg_tdiv, neg_neg]
+    rw [e, Int.tdiv_eq_ediv_of_nonneg (by omega)]; omega
+
+/-- `Interval<int>::center()` = `(max + min) / 2` with truncation lies in a non-empty interval (mathematical integers:
+the machine types additionally overflow when `|max + min|` exceeds the type, see chk.assumptions) -/
+theorem Interval_center_int_mem (b : Interval Int) (hb : ¬ Interval.Inverted b) :
+    Interval.Mem (@Gen.Interval.center Int _ cxxIntDiv _ b) b := by
+  simp only [Interval.Inverted, not_lt] at hb
+  exact tdiv_two_between b.min b.max hb
+
+theorem Box2_center_int_mem (b : Box2 Int) (hb : ¬ Box2.Inverted b) :
+    Box2.Mem (@Gen.Box2.center Int _ cxxIntDiv _ b) b := by
+  simp only [Box2.Inverted, not_or, not_lt] at hb
+  exact ⟨tdiv_two_between _ _ hb.1, tdiv_two_between _ _ hb.2⟩
+
+theorem Box3_center_int_mem (b : Box3 Int) (hb : ¬ Box3.Inverted b) :
+    Box3.Mem (@Gen.Box3.center Int _ cxxIntDiv _ b) b := by
+  simp only [Box3.Inverted, not_or, not_lt] at hb
+  exact ⟨tdiv_two_between _ _ hb.1, tdiv_two_between _ _ hb.2.1, tdiv_two_between _ _ hb.2.2⟩
+
+theorem Box4_center_int_mem (b : Box4 Int) (hb : ¬ Box4.Inverted b) :
+    Box4.Mem (@Gen.Box4.center Int _ cxxIntDiv _ b) b := by
+  simp only [Box4.Inverted, not_or, not_lt] at hb
+  exact ⟨tdiv_two_between _ _ hb.1, tdiv_two_between _ _ hb.2.1, tdiv_two_between _ _ hb.2.2.1, tdiv_two_between _ _ hb.2.2.2⟩
+
+/-- truncation toward zero, not toward `-∞`: the centre of `[-3, 0]` is `-1` (C++), where Euclidean division would give `-2` -/
+example : @Gen.Interval.center Int _ cxxIntDiv _ ⟨-3, 0⟩ = -1 ∧ @Gen.Interval.center Int _ _ _ ⟨-3, 0⟩ = -2 := by decide
+/-- with 16-bit wrap-around (what `Box<V2s>::center()` does through `Vec2<short>::operator+`) the "centre" can leave the box:
+`[30000, 32000]`: `30000 + 32000` wraps to `-3536`, halved `-1768` -/
+example : (((30000 + 32000 + 32768) % 65536 - 32768 : Int)).tdiv 2 = -1768 := by decide
+
+
+/-! ## transform / affineTransform (model `Model/BoxTransform.lean`, all four overloads; model = extracted code: `Props/C13Transform.lean`)
 
 `affImg m p` is the affine image `p·M` (row vector times the upper 4×3 block plus the translation row);
 `Gen.BoxAlgo.vecTimesM44 c m` is the real `Vec3 * Matrix44` (with homogeneous divide) applied to a corner. -/
@@ -1382,19 +1531,53 @@ theorem projective_eq_extendAll (start b : Box3 α) (m : M44 α) :
     projective start b m = Box3.extendAll start ((corners b).map (fun c => Box3.Arg.pt (Gen.BoxAlgo.vecTimesM44 c m))) := by
   simp only [projective, Box3.extendAll, List.foldl_map, Box3.step]
 
-/-- the eight-corner loop from an API-reachable start box: least box containing `start` and the eight images -/
-theorem projective_spec (tmax tlowest : α) (hlt : tlowest < tmax) (hr : ∀ x : α, tlowest ≤ x ∧ x ≤ tmax)
-    (start b : Box3 α) (m : M44 α) (hs : Box3.Canon tmax tlowest start) :
-    Box3.Canon tmax tlowest (projective start b m) ∧
+/-- the eight-corner loop from an API-reachable start box: least box containing `start` and the eight images.
+RANGE-RELATIVE (audit W1): the only requirement on the type bounds is that the eight corner images (and the start box)
+lie within them — `∀ x, tlowest ≤ x ∧ x ≤ tmax`, assumed by an earlier version, is unsatisfiable over an ordered field. -/
+theorem projective_spec (tmax tlowest : α) (hlt : tlowest < tmax)
+    (start b : Box3 α) (m : M44 α) (hs : Box3.CanonR tmax tlowest start)
+    (hrange : ∀ c ∈ corners b, V3.InRange tmax tlowest (Gen.BoxAlgo.vecTimesM44 c m)) :
+    Box3.CanonR tmax tlowest (projective start b m) ∧
     ∀ c', Box3.Subset (projective start b m) c' ↔
       Box3.Subset start c' ∧ ∀ c ∈ corners b, Box3.Mem (Gen.BoxAlgo.vecTimesM44 c m) c' := by
   rw [projective_eq_extendAll, Box3.extendAll_eq]
-  have h := Box3.extendAllN_spec tmax tlowest hlt hr
+  have h := Box3.extendAllN_specR tmax tlowest hlt
     ((corners b).map (fun c => Box3.Arg.pt (Gen.BoxAlgo.vecTimesM44 c m))) start hs
-    (by intro a ha; simp only [List.mem_map] at ha; obtain ⟨c, -, rfl⟩ := ha; trivial)
+    (by intro a ha; simp only [List.mem_map] at ha; obtain ⟨c, hc, rfl⟩ := ha; exact hrange c hc)
   refine ⟨h.1, fun c' => ?_⟩
   rw [h.2 c']
   simp only [List.mem_map, forall_exists_index, and_imp, forall_apply_eq_imp_iff₂, Box3.Arg.Within]
+
+/-- the homogeneous coordinate `w` of `p * m` (denominator of `Vec3 * Matrix44`) -/
+def wOf (m : M44 α) (p : V3 α) : α := affCoord m.x33 m.x03 m.x13 m.x23 p
+
+/-- `Vec3 * Matrix44` is the three affine numerators divided by `w` -/
+theorem vecTimesM44_eq (m : M44 α) (p : V3 α) :
+    Gen.BoxAlgo.vecTimesM44 p m = ⟨affCoord m.x30 m.x00 m.x10 m.x20 p / wOf m p, affCoord m.x31 m.x01 m.x11 m.x21 p / wOf m p,
+      affCoord m.x32 m.x02 m.x12 m.x22 p / wOf m p⟩ := by
+  first
+  | rfl
+  | (simp only [Gen.BoxAlgo.vecTimesM44, affCoord, wOf, V3.mk.injEq]; refine ⟨?_, ?_, ?_⟩ <;> ring)
+
+/-- one output axis of the projective map on a box on which `w > 0` at the eight corners: bounds valid at the corners
+are valid at every point of the box (`num(p) - lo·w(p)` is affine in `p`, hence minimal at a corner) -/
+theorem proj_axis_bounds (m3 m0 m1 m2 w3 w0 w1 w2 : α) (b : Box3 α) (lo hi : α)
+    (hw : ∀ c ∈ corners b, 0 < affCoord w3 w0 w1 w2 c)
+    (h : ∀ c ∈ corners b, lo ≤ affCoord m3 m0 m1 m2 c / affCoord w3 w0 w1 w2 c ∧
+      affCoord m3 m0 m1 m2 c / affCoord w3 w0 w1 w2 c ≤ hi)
+    (p : V3 α) (hp : Box3.Mem p b) :
+    lo ≤ affCoord m3 m0 m1 m2 p / affCoord w3 w0 w1 w2 p ∧ affCoord m3 m0 m1 m2 p / affCoord w3 w0 w1 w2 p ≤ hi := by
+  have hwp := affCoord_pos_of_corners w3 w0 w1 w2 b hw p hp
+  have e1 : ∀ q : V3 α, affCoord (m3 - lo * w3) (m0 - lo * w0) (m1 - lo * w1) (m2 - lo * w2) q =
+      affCoord m3 m0 m1 m2 q - lo * affCoord w3 w0 w1 w2 q := by intro q; unfold affCoord; ring
+  have e2 : ∀ q : V3 α, affCoord (hi * w3 - m3) (hi * w0 - m0) (hi * w1 - m1) (hi * w2 - m2) q =
+      hi * affCoord w3 w0 w1 w2 q - affCoord m3 m0 m1 m2 q := by intro q; unfold affCoord; ring
+  have g1 := affCoord_nonneg_of_corners (m3 - lo * w3) (m0 - lo * w0) (m1 - lo * w1) (m2 - lo * w2) b
+    (fun c hc => by rw [e1]; have := (le_div_iff₀ (hw c hc)).1 (h c hc).1; linarith) p hp
+  have g2 := affCoord_nonneg_of_corners (hi * w3 - m3) (hi * w0 - m0) (hi * w1 - m1) (hi * w2 - m2) b
+    (fun c hc => by rw [e2]; have := (div_le_iff₀ (hw c hc)).1 (h c hc).2; linarith) p hp
+  rw [e1] at g1; rw [e2] at g2
+  exact ⟨(le_div_iff₀ hwp).2 (by linarith), (div_le_iff₀ hwp).2 (by linarith)⟩
 
 end transform_gen
 
@@ -1430,16 +1613,20 @@ theorem affineTransform_tight (tmax tlowest : α) (b : Box3 α) (m : M44 α) (hb
   rw [affineTransform, (emptyOrInfinite_eq_false tmax tlowest b).2 ⟨hb, hi⟩]
   exact arvo_tight b m hb c'
 
-/-- Arvo's fast path equals the naive eight-corner loop for every affine matrix -/
-theorem arvo_eq_eight_corner_loop (tmax tlowest : α) (hlt : tlowest < tmax) (hr : ∀ x : α, tlowest ≤ x ∧ x ≤ tmax)
-    (b : Box3 α) (m : M44 α) (hb : ¬ Box3.Inverted b) (ha : isAffine m = true) :
+/-- Arvo's fast path equals the naive eight-corner loop for every affine matrix whose eight corner images lie within the
+type bounds (without that the loop's starting box `[max, lowest]` is not neutral: an image `> max` would be lost by
+`extendBy`) -/
+theorem arvo_eq_eight_corner_loop (tmax tlowest : α) (hlt : tlowest < tmax)
+    (b : Box3 α) (m : M44 α) (hb : ¬ Box3.Inverted b) (ha : isAffine m = true)
+    (hrange : ∀ c ∈ corners b, V3.InRange tmax tlowest (affImg m c)) :
     arvo b m = projective (Gen.Box3.default tmax tlowest) b m := by
-  have hp := projective_spec tmax tlowest hlt hr (Gen.Box3.default tmax tlowest) b m (Or.inr rfl)
+  have hp := projective_spec tmax tlowest hlt (Gen.Box3.default tmax tlowest) b m (Or.inr rfl)
+    (fun c hc => by rw [vecTimesM44_affine m ha c]; exact hrange c hc)
   have hce : ∀ c, Box3.Subset (Gen.Box3.default tmax tlowest) c :=
     fun c => Box3.subset_of_inverted _ c (Box3.canonEmpty_inverted tmax tlowest hlt)
   have hpn : ¬ Box3.Inverted (projective (Gen.Box3.default tmax tlowest) b m) := by
     rcases hp.1 with h | h
-    · exact h
+    · exact h.1
     · -- it contains the image of a corner, so it is not the empty box
       exfalso
       have hin := (hp.2 _).1 (fun p hp => hp) |>.2 ⟨b.min.x, b.min.y, b.min.z⟩ (by simp [corners])
@@ -1459,9 +1646,11 @@ theorem transform_affine_eq_affineTransform (tmax tlowest : α) (b : Box3 α) (m
   simp only [transform, affineTransform, ha, if_true]
 
 /-- ALL MATRICES: for a non-empty, non-infinite box `transform` returns the tight axis-aligned bound of the
-images `points[i] * m` of the eight corners (affine and projective path alike) -/
-theorem transform_tight (tmax tlowest : α) (hlt : tlowest < tmax) (hr : ∀ x : α, tlowest ≤ x ∧ x ≤ tmax)
-    (b : Box3 α) (m : M44 α) (hb : ¬ Box3.Inverted b) (hi : b ≠ Box3.canonInfinite tmax tlowest) (c' : Box3 α) :
+images `points[i] * m` of the eight corners (affine and projective path alike), provided those eight images lie within
+the type bounds (used on the projective path only) -/
+theorem transform_tight (tmax tlowest : α) (hlt : tlowest < tmax)
+    (b : Box3 α) (m : M44 α) (hb : ¬ Box3.Inverted b) (hi : b ≠ Box3.canonInfinite tmax tlowest)
+    (hrange : ∀ c ∈ corners b, V3.InRange tmax tlowest (Gen.BoxAlgo.vecTimesM44 c m)) (c' : Box3 α) :
     Box3.Subset (transform tmax tlowest b m) c' ↔ ∀ c ∈ corners b, Box3.Mem (Gen.BoxAlgo.vecTimesM44 c m) c' := by
   rw [transform, (emptyOrInfinite_eq_false tmax tlowest b).2 ⟨hb, hi⟩]
   simp only [Bool.false_eq_true, if_false]
@@ -1470,8 +1659,36 @@ theorem transform_tight (tmax tlowest : α) (hlt : tlowest < tmax) (hr : ∀ x :
     constructor <;> intro h c hc
     · rw [vecTimesM44_affine m ha c]; exact h c hc
     · rw [← vecTimesM44_affine m ha c]; exact h c hc
-  · rw [if_neg ha, (projective_spec tmax tlowest hlt hr (Gen.Box3.default tmax tlowest) b m (Or.inr rfl)).2 c']
+  · rw [if_neg ha, (projective_spec tmax tlowest hlt (Gen.Box3.default tmax tlowest) b m (Or.inr rfl) hrange).2 c']
     exact ⟨fun h => h.2, fun h => ⟨Box3.subset_of_inverted _ c' (Box3.canonEmpty_inverted tmax tlowest hlt), h⟩⟩
+
+/-- the result of `transform` on a non-empty, non-infinite box is a non-empty box (same range proviso) -/
+theorem transform_not_inverted (tmax tlowest : α) (hlt : tlowest < tmax)
+    (b : Box3 α) (m : M44 α) (hb : ¬ Box3.Inverted b) (hi : b ≠ Box3.canonInfinite tmax tlowest)
+    (hrange : ∀ c ∈ corners b, V3.InRange tmax tlowest (Gen.BoxAlgo.vecTimesM44 c m)) :
+    ¬ Box3.Inverted (transform tmax tlowest b m) := by
+  have h := (transform_tight tmax tlowest hlt b m hb hi hrange _).1 (fun p hp => hp) ⟨b.min.x, b.min.y, b.min.z⟩
+    (by simp [corners])
+  exact Box3.not_inverted_of_mem _ _ h
+
+/-- PROJECTIVE PATH INCLUDED: if the homogeneous coordinate `w` is positive at the eight corners (then it is positive on
+the whole box), `transform` contains the image of EVERY point of the box — for every matrix.  The hypothesis on `w` is
+necessary: see `transform_misses_point_when_w_changes_sign` below. -/
+theorem transform_contains_of_pos_w (tmax tlowest : α) (hlt : tlowest < tmax)
+    (b : Box3 α) (m : M44 α) (hb : ¬ Box3.Inverted b) (hi : b ≠ Box3.canonInfinite tmax tlowest)
+    (hrange : ∀ c ∈ corners b, V3.InRange tmax tlowest (Gen.BoxAlgo.vecTimesM44 c m))
+    (hw : ∀ c ∈ corners b, 0 < wOf m c) (p : V3 α) (hp : Box3.Mem p b) :
+    Box3.Mem (Gen.BoxAlgo.vecTimesM44 p m) (transform tmax tlowest b m) := by
+  have hc := (transform_tight tmax tlowest hlt b m hb hi hrange (transform tmax tlowest b m)).1 (fun p hp => hp)
+  generalize transform tmax tlowest b m = R at hc ⊢
+  simp only [vecTimesM44_eq, Box3.Mem] at hc ⊢
+  exact ⟨proj_axis_bounds _ _ _ _ _ _ _ _ b _ _ hw (fun c h => (hc c h).1) p hp,
+    proj_axis_bounds _ _ _ _ _ _ _ _ b _ _ hw (fun c h => (hc c h).2.1) p hp,
+    proj_axis_bounds _ _ _ _ _ _ _ _ b _ _ hw (fun c h => (hc c h).2.2) p hp⟩
+
+/-- `w > 0` on the whole box as soon as it is at the eight corners (so no point of the box is mapped to infinity) -/
+theorem wOf_pos_of_corners (b : Box3 α) (m : M44 α) (hw : ∀ c ∈ corners b, 0 < wOf m c) (p : V3 α) (hp : Box3.Mem p b) :
+    0 < wOf m p := affCoord_pos_of_corners _ _ _ _ b hw p hp
 
 /-- hence, on the affine path, `transform` contains the image of every point of the box -/
 theorem transform_contains (tmax tlowest : α) (b : Box3 α) (m : M44 α) (hb : ¬ Box3.Inverted b)
@@ -1542,10 +1759,19 @@ theorem four_overloads_equal (tmax tlowest : α) (b : Box3 α) (m : M44 α) (r r
   exact ⟨rfl, rfl, rfl⟩
 
 /-- hence the out-parameter form is also the tight bound of the eight corner images, for all matrices -/
-theorem transformOut_tight (tmax tlowest : α) (hlt : tlowest < tmax) (hr : ∀ x : α, tlowest ≤ x ∧ x ≤ tmax)
-    (b : Box3 α) (m : M44 α) (r : Box3 α) (hb : ¬ Box3.Inverted b) (hi : b ≠ Box3.canonInfinite tmax tlowest) (c' : Box3 α) :
+theorem transformOut_tight (tmax tlowest : α) (hlt : tlowest < tmax)
+    (b : Box3 α) (m : M44 α) (r : Box3 α) (hb : ¬ Box3.Inverted b) (hi : b ≠ Box3.canonInfinite tmax tlowest)
+    (hrange : ∀ c ∈ corners b, V3.InRange tmax tlowest (Gen.BoxAlgo.vecTimesM44 c m)) (c' : Box3 α) :
     Box3.Subset (transformOut tmax tlowest b m r) c' ↔ ∀ c ∈ corners b, Box3.Mem (Gen.BoxAlgo.vecTimesM44 c m) c' := by
-  rw [transformOut_eq]; exact transform_tight tmax tlowest hlt hr b m hb hi c'
+  rw [transformOut_eq]; exact transform_tight tmax tlowest hlt b m hb hi hrange c'
+
+/-- ... and contains the image of every point of the box when `w > 0` at the corners -/
+theorem transformOut_contains_of_pos_w (tmax tlowest : α) (hlt : tlowest < tmax)
+    (b : Box3 α) (m : M44 α) (r : Box3 α) (hb : ¬ Box3.Inverted b) (hi : b ≠ Box3.canonInfinite tmax tlowest)
+    (hrange : ∀ c ∈ corners b, V3.InRange tmax tlowest (Gen.BoxAlgo.vecTimesM44 c m))
+    (hw : ∀ c ∈ corners b, 0 < wOf m c) (p : V3 α) (hp : Box3.Mem p b) :
+    Box3.Mem (Gen.BoxAlgo.vecTimesM44 p m) (transformOut tmax tlowest b m r) := by
+  rw [transformOut_eq]; exact transform_contains_of_pos_w tmax tlowest hlt b m hb hi hrange hw p hp
 
 /-! ### empty ↦ empty, infinite ↦ infinite -/
 
@@ -1611,6 +1837,72 @@ example : transformOut 10 (-10) (Box3.canonInfinite 10 (-10)) wId wUnit = Box3.c
 /-- projective matrix with `result` holding [5,6]³: the result no longer covers the old `result` -/
 example : transformOut 10 (-10) wUnit wProj ⟨⟨5, 5, 5⟩, ⟨6, 6, 6⟩⟩ = transform 10 (-10) wUnit wProj :=
   transformOut_eq 10 (-10) wUnit wProj _
+
+/-! ### non-vacuity of the transform theorems over ℚ (type bounds ±10), audit W1 / W3 -/
+
+theorem wUnit_ok : ¬ Box3.Inverted wUnit ∧ wUnit ≠ Box3.canonInfinite 10 (-10) := by
+  simp only [Box3.Inverted, wUnit, Box3.canonInfinite]; decide
+
+/-- the eight corner images of the unit cube under `wProj` lie within the type bounds -/
+theorem wProj_range : ∀ c ∈ corners wUnit, V3.InRange 10 (-10) (Gen.BoxAlgo.vecTimesM44 c wProj) := by
+  simp only [corners, wUnit, wProj, Gen.BoxAlgo.vecTimesM44, V3.InRange, List.mem_cons, List.not_mem_nil, or_false,
+    forall_eq_or_imp, forall_eq]
+  norm_num
+
+/-- PROJECTIVE path, concrete: the unit cube under `wProj` (not affine) becomes `[0, 1/2]³` -/
+example : isAffine wProj = false ∧ transform 10 (-10) wUnit wProj = ⟨⟨0, 0, 0⟩, ⟨1/2, 1/2, 1/2⟩⟩ := by decide +kernel
+
+/-- `transform_tight` / `transformOut_tight` have instances on the projective path -/
+example (c' : Box3 ℚ) : Box3.Subset (transform 10 (-10) wUnit wProj) c' ↔
+    ∀ c ∈ corners wUnit, Box3.Mem (Gen.BoxAlgo.vecTimesM44 c wProj) c' :=
+  transform_tight 10 (-10) (by norm_num) wUnit wProj wUnit_ok.1 wUnit_ok.2 wProj_range c'
+example (r c' : Box3 ℚ) : Box3.Subset (transformOut 10 (-10) wUnit wProj r) c' ↔
+    ∀ c ∈ corners wUnit, Box3.Mem (Gen.BoxAlgo.vecTimesM44 c wProj) c' :=
+  transformOut_tight 10 (-10) (by norm_num) wUnit wProj r wUnit_ok.1 wUnit_ok.2 wProj_range c'
+
+/-- a perspective matrix with NON-constant `w = 1 + x` (positive on the unit cube) -/
+def wPersp : M44 ℚ := ⟨1, 0, 0, 1, 0, 1, 0, 0, 0, 0, 1, 0, 0, 0, 0, 1⟩
+
+theorem wPersp_range : ∀ c ∈ corners wUnit, V3.InRange 10 (-10) (Gen.BoxAlgo.vecTimesM44 c wPersp) := by
+  simp only [corners, wUnit, wPersp, Gen.BoxAlgo.vecTimesM44, V3.InRange, List.mem_cons, List.not_mem_nil, or_false,
+    forall_eq_or_imp, forall_eq]
+  norm_num
+theorem wPersp_pos : ∀ c ∈ corners wUnit, 0 < wOf wPersp c := by
+  simp only [corners, wUnit, wPersp, wOf, affCoord, List.mem_cons, List.not_mem_nil, or_false, forall_eq_or_imp, forall_eq]
+  norm_num
+
+/-- `transform_contains_of_pos_w` has an instance with a genuinely projective matrix: the image of the centre of the
+unit cube, `(1/3, 1/3, 1/3)`, lies in the transformed box `[0, 1/2] × [0, 1]²` -/
+example : Box3.Mem (Gen.BoxAlgo.vecTimesM44 ⟨1/2, 1/2, 1/2⟩ wPersp) (transform 10 (-10) wUnit wPersp) :=
+  transform_contains_of_pos_w 10 (-10) (by norm_num) wUnit wPersp wUnit_ok.1 wUnit_ok.2 wPersp_range wPersp_pos _
+    (by simp only [Box3.Mem, wUnit]; norm_num)
+example : transform 10 (-10) wUnit wPersp = ⟨⟨0, 0, 0⟩, ⟨1/2, 1, 1⟩⟩ ∧
+    Gen.BoxAlgo.vecTimesM44 ⟨1/2, 1/2, 1/2⟩ wPersp = (⟨1/3, 1/3, 1/3⟩ : V3 ℚ) := by decide +kernel
+
+/-- an affine matrix (shear + translation) on which `arvo_eq_eight_corner_loop` has an instance -/
+def wShear : M44 ℚ := ⟨1, 2, 0, 0, -1, 1, 0, 0, 0, 3, 1, 0, 1, -2, 0, 1⟩
+example : arvo wUnit wShear = projective (Gen.Box3.default 10 (-10)) wUnit wShear :=
+  arvo_eq_eight_corner_loop 10 (-10) (by norm_num) wUnit wShear wUnit_ok.1 (by decide) (by
+    simp only [corners, wUnit, wShear, affImg, affCoord, V3.InRange, List.mem_cons, List.not_mem_nil, or_false,
+      forall_eq_or_imp, forall_eq]
+    norm_num)
+example : arvo wUnit wShear = ⟨⟨0, -2, 0⟩, ⟨2, 4, 1⟩⟩ := by decide +kernel
+
+/-- the range proviso is NECESSARY for "Arvo = eight-corner loop": with type bounds ±1 the translated cube `[3,4]³` has
+all its corner images above `max`; the loop's `extendBy` then keeps `min = max() = 1` and produces an inverted box. -/
+example : arvo wUnit (⟨1, 0, 0, 0, 0, 1, 0, 0, 0, 0, 1, 0, 3, 3, 3, 1⟩ : M44 ℚ) ≠
+    projective (Gen.Box3.default 1 (-1)) wUnit ⟨1, 0, 0, 0, 0, 1, 0, 0, 0, 0, 1, 0, 3, 3, 3, 1⟩ := by decide +kernel
+
+/-- W3, NECESSITY of `w > 0`: `w = x` changes sign on the box `[-1, 2] × {0} × {0}`; the corner images are `x' = -1` and
+`x' = 1/2`, so the result is `[-1, 1/2] × {0}²`, but the box point `(1/4, 0, 0)` is mapped to `x' = 4`, outside.
+"Contains the image of every point of the box" is FALSE for projective matrices whose `w` changes sign on the box. -/
+def wFlip : M44 ℚ := ⟨0, 0, 0, 1, 0, 1, 0, 0, 0, 0, 1, 0, 1, 0, 0, 0⟩
+def wSeg : Box3 ℚ := ⟨⟨-1, 0, 0⟩, ⟨2, 0, 0⟩⟩
+theorem transform_misses_point_when_w_changes_sign :
+    Box3.Mem (⟨1/4, 0, 0⟩ : V3 ℚ) wSeg ∧ transform 10 (-10) wSeg wFlip = ⟨⟨-1, 0, 0⟩, ⟨1/2, 0, 0⟩⟩ ∧
+    Gen.BoxAlgo.vecTimesM44 ⟨1/4, 0, 0⟩ wFlip = (⟨4, 0, 0⟩ : V3 ℚ) ∧
+    ¬ Box3.Mem (Gen.BoxAlgo.vecTimesM44 ⟨1/4, 0, 0⟩ wFlip) (transform 10 (-10) wSeg wFlip) := by
+  simp only [Box3.Mem]; decide +kernel
 
 end former_witnesses
 
